@@ -19,3 +19,5 @@ open AC.Props.C01
 #print axioms C01_src_dictsum_total
 #print axioms AC.DictSumTie.dictsumchain_tie
 #print axioms C01_src_dictsum_ends_at_sumInt
+#print axioms C01_src_binary
+#print axioms AC.BinaryTie.rtl_tie
